@@ -10,15 +10,19 @@ import Pog.Props.C20
   are the spec's original property names whatever Python field names were derived; formatted values
   (date-time, date, uuid, byte/binary, enums) survive unchanged.
 
-  What is proved (models: `Pog.Model.Conv`, `Pog.Model.ConvGen`; tied to the code by corr_conv.py; `✗` = false of the code):
+  What is proved (models: `Pog.Model.Conv`, `Pog.Model.ConvGen`; tied to the code by corr_conv.py):
 
     meta_maps_inverse        : the emitted `Meta` maps are mutually inverse bijections between the schema's property
                                names and the derived (pairwise distinct) field identifiers; wire keys = property names (full)
     roundtrip_generated      : C16 `decode_encode` instantiated with those maps: any property names, any derived names  (full)
-    chosen_leaves_supported  : every python type the resolver chooses for a string `format` has a codec               ✗
-                               — `uuid ↦ UUID`, `time ↦ time` have neither structure nor unstructure hook  (counterexample)
-                               — every other entry of `format_mapping` does                                   (partial)
-    unsupported_field_poisons_class : a model with ONE such property cannot be decoded at all, whatever the payload
+    chosen_leaves_supported  : every python type the resolver chooses for a string `format` has a codec:
+                               a structure hook and an unstructure hook (or it is a cattrs builtin)                 (full)
+    chosen_leaves_supported_former_witness : (F10 repaired) `uuid ↦ UUID`, `time ↦ time` used to have neither hook; now a
+                               UUID / time string is structured and written back unchanged
+    chosen_leaves_roundtrip  : a canonically spelled value of ANY format of `format_mapping` (and of the default) survives
+                               structure-then-unstructure unchanged, for every codec                                (full)
+    unsupported_field_poisons_class : a model with ONE property whose type has no structure hook (what is left: an unresolved
+                               forward reference, F42) cannot be decoded at all, whatever the payload
                                (the failure happens while the class's structure function is generated)      (total defect)
 -/
 namespace Pog.C03
@@ -126,29 +130,62 @@ example : tolerated (.obj [("a".toList, .int 1), ("b".toList, .int 2)]) (.obj [(
 
 /-! ## the leaves the resolver chooses -/
 
-/-- ✗ FULL STATEMENT (false): `∀ e ∈ formatMapping, leafRoundTrips e.2 = true`. -/
-theorem chosen_leaves_supported_partial :
-    ∀ e ∈ formatMapping, e.2 ≠ .uuid → e.2 ≠ .time → leafRoundTrips e.2 = true := by
+/-- FULL STATEMENT: every python type `_resolve_string` chooses for a string `format` can be structured by the bundled
+    converter and is unstructured by a hook of the module (or is JSON as it stands).  Table-level: re-checked by
+    `decide` against `formatMapping` × `leafSupported`. -/
+theorem chosen_leaves_supported : ∀ e ∈ formatMapping, leafRoundTrips e.2 = true := by
   decide
+
+/-- The statement is not vacuous: the table has entries, `uuid` and `time` among them. -/
+example : ("uuid".toList, Leaf.uuid) ∈ formatMapping ∧ ("time".toList, Leaf.time) ∈ formatMapping
+    ∧ formatMapping.length = 10 := by decide
 
 /-- The default of `format_mapping.get` (`str`, e.g. for `byte`, `password`) is supported. -/
 theorem default_leaf_supported : leafRoundTrips .str = true := by decide
 
-/-- ✗ witnesses: `format: uuid` resolves to `UUID`, `format: time` to `datetime.time`; the converter registers no
-    hook for either (table `leafSupported`) and cattrs has none: a UUID string cannot be structured, a `UUID`
-    object is passed through unstructuring unchanged and is not JSON. -/
-theorem chosen_leaves_supported_counterexample :
-    leafOfFormat "uuid".toList = .uuid ∧ leafRoundTrips .uuid = false
-    ∧ leafOfFormat "time".toList = .time ∧ leafRoundTrips .time = false
+/-- The former witnesses of F10 (repaired): `format: uuid` resolves to `UUID`, `format: time` to `datetime.time`; the
+    converter used to register no hook for either.  Now both are in `leafSupported`, a UUID / time string is structured
+    to a `UUID` / `time` object, and that object is unstructured to the same string. -/
+theorem chosen_leaves_supported_former_witness :
+    leafOfFormat "uuid".toList = .uuid ∧ leafRoundTrips .uuid = true
+    ∧ leafOfFormat "time".toList = .time ∧ leafRoundTrips .time = true
     ∧ structureFromDict Codecs.exec 3 [] (.leaf .uuid) (.str "123e4567-e89b-12d3-a456-426614174000".toList)
-        = .error ⟨false, [([], .unsupported)]⟩
-    ∧ (unstructureToDict Codecs.exec 3 [] [] (.opaque "uuid".toList "123e4567-e89b-12d3-a456-426614174000".toList)).1
-        = .error .notJson := by
+        = .ok (.uuid "123e4567-e89b-12d3-a456-426614174000".toList)
+    ∧ (unstructureToDict Codecs.exec 3 [] [] (.uuid "123e4567-e89b-12d3-a456-426614174000".toList)).1
+        = .ok (.str "123e4567-e89b-12d3-a456-426614174000".toList)
+    ∧ roundtrip Codecs.exec 3 [] [] (.leaf .time) (.str "12:30:00+05:30".toList)
+        = .ok (.ok (.str "12:30:00+05:30".toList))
+    ∧ structureFromDict Codecs.exec 3 [] (.leaf .uuid) (.str "not-a-uuid".toList) = .error ⟨false, [([], .uuidForm)]⟩ := by
   decide
 
-/-- A dataclass with one field whose type has no structure hook (a `UUID`, a `time`, a list of them) cannot be
-    structured from ANY non-null payload — even one that omits the field: cattrs looks the hooks up when it
-    generates the class's structure function. -/
+/-- What `chosen_leaves_supported` buys: for EVERY entry of `format_mapping` (and for the default `str`), every codec and
+    every canonically spelled wire value of that leaf type, structuring succeeds and unstructuring the result gives the
+    wire value back. -/
+theorem chosen_leaves_roundtrip (c : Codecs) (n : Nat) (reg : List Str) (decls : Decls) (fmt : Str) (j : JsonV)
+    (hconf : leafConforms c (leafOfFormat fmt) j = true) :
+    ∃ v, structF c (n + 1) decls (.leaf (leafOfFormat fmt)) j = .ok v
+      ∧ unstrF c (n + 1) reg decls (some (.leaf (leafOfFormat fmt))) v = .ok j := by
+  have hrt : leafRoundTrips (leafOfFormat fmt) = true := by
+    unfold leafOfFormat
+    cases hg : aget formatMapping fmt with
+    | none => exact default_leaf_supported
+    | some l => exact chosen_leaves_supported (fmt, l) (aget_mem _ _ _ hg)
+  simp only [leafRoundTrips, Bool.and_eq_true] at hrt
+  have hc : conformsF c (n + 1) decls (.leaf (leafOfFormat fmt)) j = true := by
+    simp only [conformsF, resolvable, hrt.1, hrt.2, hconf, Bool.and_self]
+  obtain ⟨v, h1, h2, _⟩ := roundtrip_leaf c reg decls n _ j hc
+  refine ⟨v, h1, ?_⟩
+  rw [h2]; simp [normaliseF]
+
+/-- The hypothesis is satisfiable for the formerly unsupported formats (and fails for a non-canonical spelling). -/
+example : leafConforms Codecs.exec (leafOfFormat "uuid".toList) (.str "123e4567-e89b-12d3-a456-426614174000".toList) = true
+    ∧ leafConforms Codecs.exec (leafOfFormat "time".toList) (.str "23:59:59".toList) = true
+    ∧ leafConforms Codecs.exec (leafOfFormat "time".toList) (.str "23:59:59Z".toList) = false
+    ∧ leafConforms Codecs.exec (leafOfFormat "date-time".toList) (.str "2020-01-01T00:00:00".toList) = true := by decide
+
+/-- A dataclass with one field whose type has no structure hook (an unresolved forward reference `"Node"`, a list of
+    them — F42) cannot be structured from ANY non-null payload — even one that omits the field: cattrs looks the hooks
+    up when it generates the class's structure function. -/
 theorem unsupported_field_poisons_class (c : Codecs) (n : Nat) (decls : Decls) (name : Str) (cd : ClassDecl)
     (j : JsonV) (hcd : aget decls name = some cd) (hj : j ≠ .null)
     (hbad : ∃ f ∈ cd.fields, resolvable f.ty = false) :
@@ -159,14 +196,22 @@ theorem unsupported_field_poisons_class (c : Codecs) (n : Nat) (decls : Decls) (
   rw [structF_dc]
   cases j <;> simp_all [structClass]
 
-/-- `Optional[UUID]` IS resolvable (it goes through the union hook and fails only when a non-null value arrives);
-    a bare `UUID` field, or a `List[UUID]`, is not. -/
-example : resolvable (.optional (.leaf .uuid)) = true ∧ resolvable (.leaf .uuid) = false
-    ∧ resolvable (.list (.leaf .uuid)) = false := by decide
+/-- `Optional["N"]` IS resolvable (it goes through the union hook and fails only when a non-null value arrives);
+    a bare forward reference, or a `List["N"]`, is not.  A `UUID` / `time` field (bare or in a list) is. -/
+example : resolvable (.optional (.fwd "N".toList)) = true ∧ resolvable (.fwd "N".toList) = false
+    ∧ resolvable (.list (.fwd "N".toList)) = false
+    ∧ resolvable (.leaf .uuid) = true ∧ resolvable (.list (.leaf .time)) = true := by decide
 
 example : structureFromDict Codecs.exec 4
-    [("U".toList, { fields := [⟨"id".toList, .leaf .int, .required⟩, ⟨"uid".toList, .leaf .uuid, .none⟩],
+    [("N".toList, { fields := [⟨"id".toList, .leaf .int, .required⟩, ⟨"kids".toList, .list (.fwd "N".toList), .list⟩],
                     loadMap := none, dumpMap := none })]
-    (.dc "U".toList) (.obj [("id".toList, .int 1)]) = .error ⟨false, [([], .unsupported)]⟩ := by decide
+    (.dc "N".toList) (.obj [("id".toList, .int 1)]) = .error ⟨false, [([], .unsupported)]⟩ := by decide
+
+/-- The former poisoned class of F10 now decodes and re-encodes: `class U: id: int; uid: Optional[UUID] = None`. -/
+example : roundtrip Codecs.exec 4 []
+    [("U".toList, { fields := [⟨"id".toList, .leaf .int, .required⟩, ⟨"uid".toList, .optional (.leaf .uuid), .none⟩],
+                    loadMap := none, dumpMap := none })]
+    (.dc "U".toList) (.obj [("id".toList, .int 1), ("uid".toList, .str "00000000-0000-0000-0000-000000000005".toList)])
+    = .ok (.ok (.obj [("id".toList, .int 1), ("uid".toList, .str "00000000-0000-0000-0000-000000000005".toList)])) := by decide
 
 end Pog.C03
